@@ -104,7 +104,7 @@ func (i *interpreter) equalsV(t types.Type, x, y value) value {
 		return x == y.(complex64)
 	case complex128:
 		return x == y.(complex128)
-	case string, *symstr, *fdstr:
+	case string, *symstr, *fdstr, *ropestr:
 		return i.strEq(x, y)
 	case *value:
 		return x == y.(*value)
@@ -323,6 +323,8 @@ func writeValue(buf *bytes.Buffer, v value) {
 		fmt.Fprintf(buf, "<symstr len=%d>", len(v.b))
 	case *fdstr:
 		fmt.Fprintf(buf, "<fdstr %v>", v.tab)
+	case *ropestr:
+		fmt.Fprintf(buf, "<rope %d parts>", len(v.parts))
 	case *gmap:
 		if v == nil {
 			buf.WriteString("map[]")
